@@ -123,7 +123,8 @@ def observe(db: Any) -> Tuple[Dict[Tuple[str, str], Any], List[str]]:
             for rw in t.table_rows:
                 rec(rw, "struct", lambda rw=rw: rw.structure)
                 rec(rw, "dop", lambda rw=rw: rw.dop)
-        for msgs in (lay.requests, lay.positive_responses, lay.negative_responses):
+        for msgs in (lay.requests, lay.positive_responses, lay.negative_responses,
+                     getattr(lay, "global_negative_responses", [])):
             for msg in msgs:
                 params(msg.parameters)
         for svc in lay.services:
